@@ -113,7 +113,7 @@ def main() -> None:
                 if k == "MypyFile":
                     return "module", node.fullname
                 if k == "ClassDef":
-                    enum = any(getattr(b, "fullname", "") in ("enum.Enum", "enum.IntEnum") for b in node.base_type_exprs)
+                    enum = any(getattr(b, "fullname", "") in ("enum.Enum", "enum.IntEnum", "enum.StrEnum", "enum.Flag", "enum.IntFlag") for b in node.base_type_exprs)
                     return ("enum" if enum else "class"), node.name
                 if k == "FuncDef":
                     return "func", node.name
